@@ -46,6 +46,12 @@ def run(sh):
         seed = core.stable_int(sh.seed, 'C17', 'scratch', i) % (1 << 40)
         engine_line.run_spec(sh, 'C17', modelgen.generate_scratch_batches(seed, pol[i % 4]), MONITORS, nontrivial,
                              prefix='scratch_')
+    # the rest of a lot scrapped by the inspection station while the batcher hands a part of it over (the census does
+    # not know about scrapped parts, so only the batching monitor runs)
+    for i in sh.share(max(32, n // 6)):
+        seed = core.stable_int(sh.seed, 'C17', 'scrap', i) % (1 << 40)
+        engine_line.run_spec(sh, 'C17', modelgen.generate_scrap_lots(seed, pol[i % 4]), ('batching',), nontrivial,
+                             prefix='scrap_')
     # scale: output batches of 256 .. 1000 parts
     for i in sh.share(5 if sh.tier == 'quick' else 30):
         engine_line.run_spec(sh, 'C17', modelgen.generate_big_batches(i, pol[i % 4]), MONITORS, nontrivial,
